@@ -95,6 +95,8 @@ class Batch:
                 cb(outs[s:s + n])
             except Exception as e:   # a public call of the implementation raised inside a comparison
                 tb = traceback.format_exc().strip().splitlines()
+                if not any("/cuqi/" in l for l in tb):
+                    raise                      # an error of the harness itself: machinery failure, not a finding
                 where = next((l.strip() for l in reversed(tb) if "/cuqi/" in l), tb[-1])
                 d = {"lines": self.lines[s:s + n][:2], "exception": repr(e)[:200], "where": where[:200]}
                 ctx.case("crash", d)
@@ -1062,6 +1064,9 @@ def case_wang(ctx, cuqi, B1, B2, cfg, sid):
 
 # ----------------------------------------------------------------------------- run
 def run(ctx):
+    import sys
+    if hasattr(sys, "set_int_max_str_digits"):
+        sys.set_int_max_str_digits(0)          # exact Euler iterates have thousands of digits
     cuqi = import_cuqi()
     from cuqi.testproblem import _testproblem as T
     from cuqi.geometry import Image2D
